@@ -20,7 +20,7 @@ def gen_spec(rng, max_depth=6, bases=("sync", "pool"), types=LAYER_TYPES, vt=Fal
         t = rng.choice(types)
         L = {"t": t, "k": k}
         if t == "map":
-            L["error_fn"] = rng.choice([None, None, "wrap", "reraise", "recover"])
+            L["error_fn"] = rng.choice([None, None, "wrap", "reraise", "recover", "recover_none"])
             L["fn"] = rng.choice(["tag", "tag", "none"])
         elif t == "flat_map":
             L["fn"] = rng.choice(["ret", "ret", "none", "raise_on_odd"])
@@ -136,6 +136,8 @@ def make_error_fn(kind, k):
             raise ex
         if kind == "recover":
             return ("rec%d" % k, type(ex).__name__)
+        if kind == "recover_none":
+            return None  # e.g. a handler that only logs the failure
         raise AssertionError(kind)
     return behave
 
@@ -156,10 +158,19 @@ def _parity(x):
     return isinstance(x, int) and x % 2 == 1
 
 
+class PollBoom(Exception):
+    """raised by a scripted poll function"""
+
+
 def make_poll_fn(mode, k, b):
     seen = b.poll_state.setdefault(k, {})
 
     def behave(idx, descriptors):
+        instr.LOG.add("poll.shown", k=k, idx=idx, results=[instr._short(d.result, 40) for d in descriptors])
+        if mode == "raise_once" and descriptors and not b.poll_state.get(("raised", k)):
+            e = PollBoom("poll%d call %d" % (k, idx))
+            b.poll_state[("raised", k)] = (e, [d.result for d in descriptors])
+            raise e
         for d in descriptors:
             key = id(d)
             n = seen.get(key, 0)
@@ -237,6 +248,8 @@ def model(spec, script):
                 return ("exc", OtherError, "err%d" % k)
             if ek == "recover":
                 return ("value", ("rec%d" % k, o[1].__name__))
+            if ek == "recover_none":
+                return ("value", None)
         if t == "flat_map":
             if o[0] == "value":
                 fk = L.get("fn", "ret")
